@@ -197,12 +197,19 @@ func init() {
 		p := curPath()
 		v := p.fresh("c", big.NewInt(0), big.NewInt(int64(n-1)))
 		p.inputs = append(p.inputs, inputVar{v, "int"})
+		// the variable is fresh and constrained only by its range and by the exclusions made
+		// here, so every remaining value is feasible: the n-way fork needs no solver call
+		val := n - 1
 		for x := 0; x < n-1; x++ {
-			if decide(tCmp("=", v, tInt(int64(x)))) {
-				return x
+			if decideFree(tCmp("=", v, tInt(int64(x)))) {
+				val = x
+				break
 			}
 		}
-		return n - 1
+		if p.modelOK && p.model != nil {
+			p.model[v.name] = big.NewInt(int64(val))
+		}
+		return val
 	}
 	harnessAPI["mLe"] = func(fr *frame, args []value) value {
 		return mkSym(types.Bool, tCmp("<=", args[0].(symm).t, args[1].(symm).t))
